@@ -1,15 +1,15 @@
 import Drand.Beacon.Cache
-namespace Drand.Driver
+namespace Drand.Driver.CacheD
 open Drand Drand.Beacon
 
-def insertSortedStr (s : String) : List String → List String
+private def insertSortedStr (s : String) : List String → List String
   | [] => [s]
   | x :: t => if s ≤ x then s :: x :: t else x :: insertSortedStr s t
-def sortStrs (l : List String) : List String := l.foldl (fun acc s => insertSortedStr s acc) []
+private def sortStrs (l : List String) : List String := l.foldl (fun acc s => insertSortedStr s acc) []
 
 def showRId (i : RId) : String := s!"{i.1}:{toHex i.2}"
 
-def natKey (n : Nat) : String := (String.ofList (List.replicate (10 - (toString n).length) '0')) ++ toString n
+private def natKey (n : Nat) : String := (String.ofList (List.replicate (10 - (toString n).length) '0')) ++ toString n
 
 /-- canonical dump: rounds (sorted) with their sorted signer indices; rcvd per signer (sorted by signer, list order kept) -/
 def cacheDump (c : Cache) : String :=
@@ -42,4 +42,4 @@ def cacheStep (c : Cache) (f : List String) : Cache × String :=
   | ["reset"] => (Cache.empty c.sigLen, "ok")
   | _ => (c, "bad-op")
 
-end Drand.Driver
+end Drand.Driver.CacheD
